@@ -66,8 +66,16 @@ struct SimpleStringBuffer
     void setWriteLimit(size_t write_limit);
     void resetWriteLimit();
     bool reachedItsCapacity();
+#ifdef CPPUTEST_VERIF_HOOKS
+    bool verifCanaryIntact() const;
+    size_t verifPositionsFilled() const { return positions_filled_; }
+#endif
 private:
     char buffer_[SIMPLE_STRING_BUFFER_LEN];
+#ifdef CPPUTEST_VERIF_HOOKS
+    enum { VERIF_CANARY_LEN = 64 };
+    unsigned char verif_canary_[VERIF_CANARY_LEN];
+#endif
     size_t positions_filled_;
     size_t write_limit_;
 };
@@ -90,6 +98,10 @@ public:
     void reportMemoryCorruptionFailure(MemoryLeakDetectorNode* node, const char* freeFile, size_t freeLineNumber, TestMemoryAllocator* freeAllocator, MemoryLeakFailure* reporter);
     void reportAllocationDeallocationMismatchFailure(MemoryLeakDetectorNode* node, const char* freeFile, size_t freeLineNumber, TestMemoryAllocator* freeAllocator, MemoryLeakFailure* reporter);
     char* toString();
+#ifdef CPPUTEST_VERIF_HOOKS
+    bool verifCanaryIntact() const { return outputBuffer_.verifCanaryIntact(); }
+    size_t verifPositionsFilled() const { return outputBuffer_.verifPositionsFilled(); }
+#endif
 
 private:
     void addAllocationLocation(const char* allocationFile, size_t allocationLineNumber, size_t allocationSize, TestMemoryAllocator* allocator);
@@ -237,6 +249,10 @@ public:
     unsigned getCurrentAllocationNumber();
 
     SimpleMutex* getMutex(void);
+#ifdef CPPUTEST_VERIF_HOOKS
+    bool verifOutputCanaryIntact() const { return outputBuffer_.verifCanaryIntact(); }
+    size_t verifOutputPositionsFilled() const { return outputBuffer_.verifPositionsFilled(); }
+#endif
 private:
     MemoryLeakFailure* reporter_;
     MemLeakPeriod current_period_;
